@@ -114,6 +114,10 @@ def _symbolic_leg(ob, job, cfg):
         outs = list(ex.explore(run))
     for o in outs:
         if o.exc is not None:
+            from ..harness import exc_origin
+            if exc_origin(o.exc) == "harness":
+                ob.fail_harness(f"harness raised: {o.exc!r}")
+                continue
             ob.fail_harness(f"real code raised under symbolic execution: {o.exc!r}")
             continue
         r = o.value
